@@ -110,22 +110,30 @@ func init() {
 				}
 				seq = append(seq, m)
 			}
+			// how many descriptor numbers the receiving process has left when the message arrives (its open-file limit)
+			slots := -1
+			if n == 1 && seq[0].nfds >= 2 && seq[0].nfds <= 253 {
+				slots = []int{-1, 1, 0}[x.Choose(3, "receiver-free-descriptor-slots")]
+			}
 			if x.Dry() {
 				return
 			}
-			c19raw(x, seq, alternate)
+			c19raw(x, seq, alternate, slots)
 		}
 		return spec
 	}
 }
 
-func c19raw(x *mc.X, seq []c19msg, alternate bool) {
+func c19raw(x *mc.X, seq []c19msg, alternate bool, slots int) {
 	var names []string
 	for _, m := range seq {
 		names = append(names, m.String())
 	}
 	x.Note("layer", "raw")
 	x.Note("sequence", names)
+	if slots >= 0 {
+		x.Note("receiver-free-descriptor-slots", slots)
+	}
 	before := fdSet()
 	a, b, err := unixsocket.NewSocketPair()
 	if err != nil {
@@ -133,9 +141,10 @@ func c19raw(x *mc.X, seq []c19msg, alternate bool) {
 		return
 	}
 	b.SetPassCred(1)
-	deadline := time.Now().Add(80 * time.Millisecond)
-	a.SetDeadline(deadline)
-	b.SetDeadline(deadline)
+	// a send that cannot proceed (socket buffer full, nothing received yet) is cut after a short wait and counted as "not
+	// sent"; a receive is only attempted for a message that was sent, so it finds the message queued and the long
+	// deadline matters only when something is really missing — no verdict depends on a short wall-clock bound
+	b.SetReadDeadline(time.Now().Add(20 * time.Second))
 	sent := make([]bool, len(seq))
 	sendErr := make([]error, len(seq))
 	outcome := ""
@@ -146,13 +155,21 @@ func c19raw(x *mc.X, seq []c19msg, alternate bool) {
 			return
 		}
 		buf := make([]byte, m.rbuf)
+		restore := func() {}
+		if slots >= 0 {
+			restore = c19limitSlots(slots)
+		}
 		n, msg, err := b.RecvMsg(buf)
+		restore()
 		ctx := fmt.Sprintf("sequence %v, message %d (%s)", names, i, m)
+		if slots >= 0 {
+			ctx += fmt.Sprintf(", receiver has %d free descriptor numbers", slots)
+		}
 		if err != nil {
 			outcome += "r"
 			// rejected on the receiving side: legitimate only if it cannot fit / be represented
 			fits := m.size <= m.rbuf && m.size > 0
-			if fits && m.nfds <= 253 {
+			if fits && m.nfds <= 253 && (slots < 0 || slots >= m.nfds) {
 				x.Failf("C19/raw/good-message-rejected", "%s: RecvMsg failed (%v) although the message fits", ctx, err)
 			}
 			return
@@ -195,6 +212,7 @@ func c19raw(x *mc.X, seq []c19msg, alternate bool) {
 		for j := 0; j < m.nfds; j++ {
 			fds = append(fds, int(c19files[j].Fd()))
 		}
+		a.SetWriteDeadline(time.Now().Add(100 * time.Millisecond))
 		sendErr[i] = a.SendMsg(bytes.Repeat([]byte{m.fill}, m.size), unixsocket.Msg{Fds: fds, Cred: c19cred(m.cred)})
 		sent[i] = sendErr[i] == nil
 		if sendErr[i] != nil && os.IsTimeout(sendErr[i]) {
@@ -227,7 +245,10 @@ func c19raw(x *mc.X, seq []c19msg, alternate bool) {
 		}
 	}
 	if nontrivial {
-		x.Distinct(fmt.Sprint(names, alternate, outcome))
+		x.Distinct(fmt.Sprint(names, alternate, slots, outcome))
+	}
+	if slots >= 0 {
+		outcome += fmt.Sprintf("/slots=%d", slots)
 	}
 	x.Outcome("raw:" + outcome)
 	if leaked != 0 {
@@ -324,7 +345,7 @@ func c19framed(x *mc.X) {
 	}
 	b.SetPassCred(1)
 	a.SetPassCred(1)
-	dl := time.Now().Add(time.Second)
+	dl := time.Now().Add(20 * time.Second) // only reached when a message that was sent never arrives
 	a.SetDeadline(dl)
 	b.SetDeadline(dl)
 	sa, sb := container.NewVerifSocket(a), container.NewVerifSocket(b)
@@ -494,4 +515,29 @@ func firstN(s string, n int) string {
 		return s[:n]
 	}
 	return s
+}
+
+// c19limitSlots lowers the soft open-file limit of this process so that exactly k descriptor numbers are free below it
+// and returns the function that restores it.
+func c19limitSlots(k int) func() {
+	var old unix.Rlimit
+	unix.Getrlimit(unix.RLIMIT_NOFILE, &old)
+	open := map[int]bool{} // probed without opening anything (a directory listing would itself occupy the lowest free number)
+	for fd := 0; fd < 4096; fd++ {
+		if _, err := unix.FcntlInt(uintptr(fd), unix.F_GETFD, 0); err == nil {
+			open[fd] = true
+		}
+	}
+	// l = the (k+1)-th free number: exactly k numbers below it are free
+	free, l := 0, 0
+	for ; ; l++ {
+		if !open[l] {
+			if free == k {
+				break
+			}
+			free++
+		}
+	}
+	unix.Setrlimit(unix.RLIMIT_NOFILE, &unix.Rlimit{Cur: uint64(l), Max: old.Max})
+	return func() { unix.Setrlimit(unix.RLIMIT_NOFILE, &old) }
 }
